@@ -90,6 +90,15 @@ func init() {
 	hdrValues = append(hdrValues, "!v1", "x!a", "!", "~v1", "=v1")
 }
 
+// pickHdr draws from a pool whose first `core` entries are the everyday ones (two draws in three come from them)
+// and whose tail holds the rarer spellings added round by round; from = 1 skips the first entry.
+func pickHdr(rng *rand.Rand, pool []string, core, from int) string {
+	if rng.Intn(3) != 0 {
+		return pool[from+rng.Intn(core-from)]
+	}
+	return pool[from+rng.Intn(len(pool)-from)]
+}
+
 // clipHdr shortens long header values for messages (the replay file has them in full).
 func clipHdr(h [][2]string) [][2]string {
 	out := make([][2]string, len(h))
@@ -123,7 +132,7 @@ func genPairs(rng *rand.Rand) []string {
 	}
 	var ps []string
 	for i := 0; i < n; i++ {
-		ps = append(ps, hdrNames[rng.Intn(len(hdrNames))], hdrExprs[rng.Intn(len(hdrExprs))])
+		ps = append(ps, pickHdr(rng, hdrNames, 8, 0), pickHdr(rng, hdrExprs, 12, 0))
 	}
 	return ps
 }
@@ -139,7 +148,7 @@ func genBadPairs(rng *rand.Rand) []string {
 		ps = genPairs(rng)
 	}
 	if len(ps) == 2 || rng.Intn(2) == 0 {
-		ps = append(ps, hdrNames[rng.Intn(len(hdrNames))], hdrExprs[1+rng.Intn(len(hdrExprs)-1)])
+		ps = append(ps, pickHdr(rng, hdrNames, 8, 0), pickHdr(rng, hdrExprs, 12, 1))
 	}
 	if rng.Intn(6) == 0 {
 		return append(ps, "X-Dangling")
@@ -208,7 +217,7 @@ func genReqHeaders(rng *rand.Rand, want []string) [][2]string {
 		if rng.Intn(5) == 0 {
 			continue // header missing
 		}
-		v := hdrValues[rng.Intn(len(hdrValues))]
+		v := pickHdr(rng, hdrValues, 25, 0)
 		if rng.Intn(3) != 0 {
 			// pick a value that matches the expression if there is one
 			re := regexp.MustCompile(want[i+1])
@@ -229,7 +238,7 @@ func genReqHeaders(rng *rand.Rand, want []string) [][2]string {
 		out = append(out, [2]string{name, v})
 	}
 	if rng.Intn(4) == 0 {
-		out = append(out, [2]string{hdrNames[rng.Intn(len(hdrNames))], hdrValues[rng.Intn(len(hdrValues))]})
+		out = append(out, [2]string{pickHdr(rng, hdrNames, 8, 0), pickHdr(rng, hdrValues, 25, 0)})
 	}
 	return out
 }
@@ -372,7 +381,7 @@ func genHistCase(rng *rand.Rand, prop string) *histCase {
 			}
 			if want := lastPairs[ri]; len(want) >= 2 && !rq.Multi && rng.Intn(8) == 0 {
 				// then the very same request is served again with a constrained header changed or removed
-				v := hdrValues[rng.Intn(len(hdrValues))]
+				v := pickHdr(rng, hdrValues, 25, 0)
 				if rng.Intn(3) == 0 {
 					v = ""
 				}
